@@ -107,6 +107,24 @@ def generate(rng: random.Random, tier: str) -> dict:
             "use_token": use_token, "cancel": cancel, "use_progress": use_progress, "cb": cb, "flood": flood, "events": events}
 
 
+def systematic(tier: str):
+    """Sweep of the cancel instant over three poll periods (every 16 ticks, thorough every 4) x where the matching response sits
+    relative to it x the tie order of the two events: the 'within one polling interval unless the response arrived first' clause on a grid."""
+    out = []
+    step = 16 if tier == "quick" else 4
+    timeout, t0 = 1.5, 0
+    for ct in range(0, 1536 + step, step):
+        for rel in (None, -1, 0, 1, 511, 512, 513):
+            for tie in ((0, 2) if rel == 0 else (0,)):
+                events = []
+                if rel is not None:
+                    events.append({"t": max(0, ct + rel), "tie": 2 - tie, "hops": 0, "kind": "match_result", "m": "mk1"})
+                out.append({"v": 1, "wblock": None, "follow_up": None, "timeout": timeout, "t0": t0, "uuid_seed": 12345, "mid": "req-1",
+                            "mode": "model_validate", "params": None, "use_token": True, "cancel": {"t": ct, "tie": tie, "hops": 0},
+                            "use_progress": False, "cb": None, "flood": None, "events": events})
+    return out
+
+
 def simplify(scn):
     if scn.get("wblock"):
         c = copy.deepcopy(scn); c["wblock"] = None; yield c
